@@ -13,7 +13,7 @@ namespace PV
 
 mutual
 theorem strG_eq_strE (S : PrintPrec) : ∀ (e : Expr) (enc : Nat),
-    strG S (constPieces S) e enc = strE S e enc
+    strG S (constPieces S) false e enc = strE S e enc
   | .const c, enc => by simp only [strG, strE]
   | .var x, _ => by simp only [strG, strE]
   | .wildcard, _ => by simp only [strG, strE]
@@ -89,9 +89,12 @@ theorem strG_eq_strE (S : PrintPrec) : ∀ (e : Expr) (enc : Nat),
   | .lookup a n, enc => by simp only [strG, strE, strG_eq_strE S a]
   | .nary .sum cs, enc => by simp only [strG, strE, strGL_eq_strL S cs]
   | .nary .prod cs, enc => by simp only [strG, strE, strGForceL_eq S false cs]
-  | .bin .quot a b, enc => by simp only [strG, strE, strG_eq_strE S a, strG_eq_strE S b]
-  | .bin .floordiv a b, enc => by simp only [strG, strE, strG_eq_strE S a, strG_eq_strE S b]
-  | .bin .rem a b, enc => by simp only [strG, strE, strG_eq_strE S a, strG_eq_strE S b]
+  | .bin .quot a b, enc => by
+      simp only [strG, strE, strG_eq_strE S a, strG_eq_strE S b, forceWrapG, Bool.false_eq_true, if_false]
+  | .bin .floordiv a b, enc => by
+      simp only [strG, strE, strG_eq_strE S a, strG_eq_strE S b, forceWrapG, Bool.false_eq_true, if_false]
+  | .bin .rem a b, enc => by
+      simp only [strG, strE, strG_eq_strE S a, strG_eq_strE S b, forceWrapG, Bool.false_eq_true, if_false]
   | .bin .pow a b, enc => by simp only [strG, strE, strG_eq_strE S a, strG_eq_strE S b]
   | .bin .lshift a b, enc => by simp only [strG, strE, strG_eq_strE S a, strG_eq_strE S b]
   | .bin .rshift a b, enc => by simp only [strG, strE, strG_eq_strE S a, strG_eq_strE S b]
@@ -110,7 +113,8 @@ theorem strG_eq_strE (S : PrintPrec) : ∀ (e : Expr) (enc : Nat),
   | .slice cs, enc => by simp only [strG, strE, strGSliceL_eq S cs]
   | .nary .min cs, _ => by simp only [strG, strE, strGL_eq_strL S cs]
   | .nary .max cs, _ => by simp only [strG, strE, strGL_eq_strL S cs]
-  | .cse c _ _, _ => by simp only [strG, strE, strG_eq_strE S c]
+  | .cse c _ _, _ => by
+      simp only [strG, strE, strG_eq_strE S c, Bool.false_eq_true, if_false]
   | .nan, _ => by simp only [strG, strE]
   | .funcSym, _ => by simp only [strG, strE]
   | .dotWild _, _ => by simp only [strG, strE]
@@ -118,16 +122,17 @@ theorem strG_eq_strE (S : PrintPrec) : ∀ (e : Expr) (enc : Nat),
   | .subst .., _ => by simp only [strG, strE]
   | .deriv .., _ => by simp only [strG, strE]
 theorem strGL_eq_strL (S : PrintPrec) : ∀ (cs : List Expr) (enc : Nat),
-    strGL S (constPieces S) cs enc = strL S cs enc
+    strGL S (constPieces S) false cs enc = strL S cs enc
   | [], _ => by simp only [strGL, strL]
   | c :: cs, enc => by simp only [strGL, strL, strG_eq_strE S c, strGL_eq_strL S cs]
 theorem strGForceL_eq (S : PrintPrec) (all : Bool) : ∀ (cs : List Expr) (enc : Nat),
-    strGForceL S (constPieces S) all cs enc = strForceL S all cs enc
+    strGForceL S (constPieces S) false all cs enc = strForceL S all cs enc
   | [], _ => by simp only [strGForceL, strForceL]
   | c :: cs, enc => by
-      simp only [strGForceL, strForceL, strG_eq_strE S c, strGForceL_eq S all cs]
+      simp only [strGForceL, strForceL, strG_eq_strE S c, strGForceL_eq S all cs, forceWrapG,
+        Bool.false_eq_true, if_false]
 theorem strGSliceL_eq (S : PrintPrec) : ∀ (cs : List Expr),
-    strGSliceL S (constPieces S) cs = strSliceL S cs
+    strGSliceL S (constPieces S) false cs = strSliceL S cs
   | [] => by simp only [strGSliceL, strSliceL]
   | .const .none :: cs => by simp only [strGSliceL, strSliceL, strGSliceL_eq S cs]
   | .const (.int n) :: cs => by
